@@ -528,7 +528,8 @@ NORM = st.fixed_dictionaries({"h": st.integers(1, 12), "w": st.integers(1, 12), 
 
 
 def F_(name, fn, strat, q=300, t=5000):
-    return Facet(name, guarded(name, fn), strategy=lambda tier, s=strat: s, budget={"quick": q, "thorough": t},
+    # (quick budgets doubled late in the session: the facets take about a second each, larger runs are less clustered)
+    return Facet(name, guarded(name, fn), strategy=lambda tier, s=strat: s, budget={"quick": 2 * q, "thorough": t},
                  shards={"quick": 1, "thorough": 4}, min_nontrivial={"quick": q // 10, "thorough": t // 10}, case_timeout=60)
 
 
